@@ -83,6 +83,14 @@ fn de_inner<R: Read>(locale_file: R, seed: LocaleSeed) -> Result<Locale, SerdeEr
     }
 }
 
+/// Verification seam (feature `verif_hooks`, off by default): run the private
+/// deserialization entry point on any reader, so a simulator can inject short reads,
+/// interrupted reads, I/O errors and early EOF. Forwards to `de_inner` unchanged.
+#[cfg(feature = "verif_hooks")]
+pub fn verif_de_locale<R: Read>(locale_file: R, seed: LocaleSeed) -> Result<Locale, SerdeError> {
+    de_inner(locale_file, seed)
+}
+
 #[derive(Debug, Clone, PartialEq)]
 pub struct Locale {
     pub top_locale_name: Key,
